@@ -263,6 +263,23 @@ fn repl_binary(ctx: &mut Ctx) {
         err.push_str("CTRL-D\n");
         (out, err)
     };
+    // an `exit` that has no exit code to take is a failed word like any other — in a meta block of a line that is then
+    // rejected, or at run time: the session goes on, the lines behind it are read (repair: the stop request used to be
+    // raised before the word looked for its code, and the REPL said BYE!). Always part of the run.
+    for (k, fixed) in [vec!["#( exit #)", "1 2", "depth"], vec!["exit", "7"], vec!["\"x\" exit", "7 8"], vec!["1 2", "#( 1.5 exit #)", "depth"], vec!["3", "#( 170141183460469231731687303715884105727 exit #) 4", "5"],
+        vec![": bye exit ;", "bye", "6"], vec!["1", "nil exit", "/rnext", "2"]].iter().enumerate() {
+        let lines: Vec<String> = fixed.iter().map(|l| l.to_string()).collect();
+        let rec = k % 2 == 1;
+        let shown = format!("C10 repl-binary xeh{} with the lines {:?} (an exit without an exit code)", if rec { " -r" } else { "" }, lines);
+        match run_bin(&lines, rec) {
+            None => ctx.oracle_fail(shown, "the binary runs".into(), "could not be started / did not finish".into()),
+            Some((o, e)) => {
+                let (mo, me) = mirror(&lines, rec);
+                ctx.check(o == mo && e == me && e.ends_with("CTRL-D\n") && !e.contains("BYE!"), || shown.clone(), || format!("every line is read (the session ends with the input: CTRL-D); stdout {:?} stderr {:?}", mo, me), || format!("stdout {:?} stderr {:?}", o, e));
+            }
+        }
+        ctx.tag("repl-binary:exit-without-a-code");
+    }
     for _ in 0..sessions {
         let rec = ctx.rng.chance(60);
         let mut lines: Vec<String> = Vec::new();
@@ -487,5 +504,55 @@ pub fn run(ctx: &mut Ctx) {
             ctx.check(r1 == r2 && out1 == out2 && a == b, || format!("{}C10 probe {} after {}", finding_tag, p.text(), hist()),
                 || format!("{} out={:?} {}", r2, out2, b), || format!("{} out={:?} {}", r1, out1, a));
         }
+    }
+    // the rejected source is a FILE (`compile_file` / `eval_file`, what the binary does with its script arguments): none
+    // of its text is ever read again, it does not count as loaded, and later sources — also the corrected file — behave
+    // as if it had never been submitted
+    for round in 0..(ctx.n / 10).max(30) {
+        let dir = crate::lib_files(&ctx.scratch);
+        let path = format!("{}/rejected-{}.xeh", dir, round);
+        let marker = format!("TAIL{}", round);
+        let bad_text = format!("{} 2 3 \"{}\" println : quad{} 4 * ;\n", gen_rejected(&mut ctx.rng), marker, round);
+        std::fs::write(&path, &bad_text).unwrap();
+        let mut with = fresh();
+        let mut without = fresh();
+        let mut pre: Vec<Op> = Vec::new();
+        for _ in 0..ctx.rng.below(3) { let g = gen_good(&mut ctx.rng, &cfg); pre.push(Op::Eval(g)); }
+        for op in &pre { apply(&mut with, op); apply(&mut without, op); }
+        let via = round % 3;
+        let r = match via {
+            0 => crate::guarded(|| with.compile_file(Xstr::from(path.as_str()))),
+            1 => crate::guarded(|| with.eval_file(Xstr::from(path.as_str()))),
+            _ => crate::guarded(|| with.eval(&format!("include \"{}\"", path))),
+        };
+        let hist = format!("{}; {} {:?} containing `{}`", pre.iter().map(|o| o.text()).collect::<Vec<_>>().join("; "), ["compile_file", "eval_file", "eval of include"][via], path, bad_text.escape_debug());
+        if !matches!(r, Some(Err(_))) { ctx.tag("rejected-file:built-after-all"); continue; }
+        ctx.tag("kind:rejected-file");
+        let (a, b) = (unstop(state_sig(&mut with), &bad_text), unstop(state_sig(&mut without), &bad_text));
+        ctx.check(a == b, || format!("C10 after-rejected-file {}", hist), || b.clone(), || a.clone());
+        // the file is corrected
+        std::fs::write(&path, format!(": quad{} 4 * ;\n", round)).unwrap();
+        let probes = [(*ctx.rng.pick(PROBES)).to_string(), "20".to_string(), format!("require \"{}\" 2 quad{}", path, round), (*ctx.rng.pick(PROBES)).to_string()];
+        for p in probes.iter() {
+            let (o1, o2) = (with.stdout().map(|s| s.len()).unwrap_or(0), without.stdout().map(|s| s.len()).unwrap_or(0));
+            let (r1, r2) = (apply(&mut with, &Op::Eval(p.clone())), apply(&mut without, &Op::Eval(p.clone())));
+            if r1.contains("insn_limit_reached") || r2.contains("insn_limit_reached") { break; }
+            let out1 = with.stdout().map(|s| s[o1..].to_string()).unwrap_or_default();
+            let out2 = without.stdout().map(|s| s[o2..].to_string()).unwrap_or_default();
+            let (a, b) = (unstop(state_sig(&mut with), &bad_text), unstop(state_sig(&mut without), &bad_text));
+            ctx.check(r1 == r2 && out1 == out2 && !out1.contains(&marker) && a == b, || format!("C10 probe eval `{}` after {}", p, hist),
+                || format!("{} out={:?} {}", r2, out2, b), || format!("{} out={:?} {}", r1, out1, a));
+        }
+    }
+    // the same at the API: a source whose `exit` fails (rejected in a meta block, or failing at run time) raises no stop
+    // request — a host that polls it does not shut down
+    for src in ["#( exit #)", "#( \"x\" exit #)", "exit", "nil exit", "1 2 #( 9223372036854775808 exit #)", ": bye exit ; bye", "[ exit ]"] {
+        for compile in [false, true] {
+            let mut xs = fresh();
+            let r = if compile { match crate::guarded(|| xs.compile(src)) { Some(Ok(())) => crate::guarded(|| xs.run()), other => other } } else { crate::guarded(|| xs.eval(src)) };
+            let stop = xs.verif_dump().about_to_stop;
+            ctx.check(matches!(r, Some(Err(_))) && !stop, || format!("C10 {} `{}` (an exit without an exit code)", if compile { "compile + run" } else { "eval" }, src), || "an error, and no stop request".into(), || format!("{:?}, stop request {}", r.map(|r| r.map_err(|e| canon::err(&e))), stop));
+        }
+        ctx.tag("kind:exit-without-a-code");
     }
 }
